@@ -144,7 +144,7 @@ const EMPTY: GSlot = GSlot { occ: false, eof: false, len: 0, b: [0, 0] };
 
 // ---- flush ------------------------------------------------------------------------------------
 
-// @verif id=RX.flush.a props=C01,C02,C04,C10 tier=quick
+// @verif id=RX.flush.a props=C01,C02,C04 tier=quick
 // @functions UserRx::flush, OutOfOrderQueue::send_front_if_fits, OutOfOrderQueue::filled_front_bytes, MsgQueue::try_push_back, MsgQueue::window, UserRx::remaining_rx_window
 // @bounds buffer 6 bytes / MSS 2 (3 slots); two in-order messages (1 and 2 symbolic bytes) awaiting flush, empty user queue, reader waker registered, any cached window value allowed by the invariant
 // @asserts both messages move to the user queue in slot order, byte-identical; reassembly queue empty afterwards; returns 3; cached window == free space; registered reader is woken exactly once and its slot cleared; advertised window honest
@@ -170,7 +170,7 @@ fn rx_flush_two_in_order() {
 }
 }
 
-// @verif id=RX.flush.b props=C01,C02,C04,C10 tier=quick
+// @verif id=RX.flush.b props=C01,C02,C04 tier=quick
 // @functions UserRx::flush, MsgQueue::try_push_back
 // @bounds 6-byte buffer; user queue already holds a 4-byte payload (free space 2); reassembly queue holds 1-byte and 2-byte in-order messages
 // @asserts only the first message fits and moves; the second stays at the front of the reassembly queue (nothing skipped, nothing reordered); returns 1; cached window == 1; dispatcher registers for a wake-up from the reader (window below one MSS); window honest
@@ -195,7 +195,7 @@ fn rx_flush_partial_fit() {
 }
 }
 
-// @verif id=RX.flush.c props=C01,C03,C04,C10 tier=quick
+// @verif id=RX.flush.c props=C01,C03,C04 tier=quick
 // @functions UserRx::flush, UserRx::remaining_rx_window, UserRx::is_reader_dropped
 // @bounds 6-byte buffer; one in-order message; reader half already dropped
 // @asserts nothing is moved, nothing lost or reordered in the reassembly queue; returns 0; advertised window is 0
@@ -218,7 +218,7 @@ fn rx_flush_reader_dropped() {
 }
 }
 
-// @verif id=RX.flush.d props=C01,C04,C10 tier=quick
+// @verif id=RX.flush.d props=C01,C04 tier=quick
 // @functions UserRx::flush
 // @bounds 6-byte buffer; slot 0 in order, slot 1 missing, slot 2 held out of order
 // @asserts only slot 0 is released; the out-of-order message shifts one slot forward and stays; window honest
@@ -240,7 +240,7 @@ fn rx_flush_keeps_out_of_order() {
 }
 }
 
-// @verif id=RX.flush.e props=C03,C01,C10 tier=quick
+// @verif id=RX.flush.e props=C03,C01 tier=quick
 // @functions UserRx::flush, MsgQueue::try_push_back
 // @bounds 6-byte buffer; in-order data (1 byte) followed by the peer's EOF marker
 // @asserts the reader queue receives the data first and EOF after it
@@ -263,7 +263,7 @@ fn rx_flush_data_then_eof() {
 
 // ---- add_remove wrapper -----------------------------------------------------------------------
 
-// @verif id=RX.add.a props=C01,C04,C10 tier=quick
+// @verif id=RX.add.a props=C01,C04 tier=quick
 // @functions UserRx::add_remove, OutOfOrderQueue::add_remove, OutOfOrderQueue::is_full
 // @bounds 6-byte buffer, empty queues, in-order DATA with 2 symbolic bytes
 // @asserts Consumed{1,2}; no flush (queue not full): user queue untouched; advertised window drops by the stored bytes and stays honest
@@ -289,7 +289,7 @@ fn rx_add_in_order_no_flush() {
 }
 }
 
-// @verif id=RX.add.b props=C01,C04,C10 tier=quick timeout=900
+// @verif id=RX.add.b props=C01,C04 tier=quick timeout=900
 // @functions UserRx::add_remove, UserRx::flush
 // @bounds 6-byte buffer; filled_front = 1 (slot 0, 1 byte), slot 2 held (1 byte); a 2-byte DATA for the gap completes the queue (3/3 slots) which triggers the flush
 // @asserts Consumed{2, 3}; all three messages reach the reader queue in sequence order, byte-identical; reassembly queue empty; window honest
@@ -322,7 +322,7 @@ fn read_into(rh: &mut UtpStreamReadHalf, out: &mut [u8], waker_id: usize) -> Pol
     Pin::new(rh).poll_read_vectored(&mut cx, &mut bufs)
 }
 
-// @verif id=RX.read.a props=C01,C02,C03,C04,C10 tier=quick
+// @verif id=RX.read.a props=C01,C02,C03,C04 tier=quick
 // @functions UtpStreamReadHalf::poll_read_vectored, MsgQueue::pop_front
 // @bounds user queue [payload(2 symbolic bytes), payload(1), EOF]; 4-byte read buffer; dispatcher waker registered
 // @asserts returns 3 bytes == the payload bytes in queue order; EOF not reported together with data loss (is_eof latched, next read returns 0); dispatcher woken because buffer space was freed; queue accounting drops to 0
@@ -352,7 +352,7 @@ fn rx_read_two_payloads_then_eof() {
 }
 }
 
-// @verif id=RX.read.b props=C01,C10 tier=quick
+// @verif id=RX.read.b props=C01 tier=quick
 // @functions UtpStreamReadHalf::poll_read_vectored
 // @bounds a 3-byte payload partially read (offset 1 carried over); empty queue; 1-byte and then 4-byte read buffers
 // @asserts the carry-over resumes at the exact offset: no byte skipped or repeated across reads
@@ -412,7 +412,7 @@ fn rx_read_empty_queue() {
 }
 }
 
-// @verif id=RX.read.d props=C03,C01,C10 tier=quick
+// @verif id=RX.read.d props=C03,C01 tier=quick
 // @functions UtpStreamReadHalf::poll_read_vectored
 // @bounds user queue [payload(1), Error]; connection closed; 4-byte buffer; two reads
 // @asserts data queued before the failure is still delivered first; the failure then surfaces as an error (not EOF, not a hang)
@@ -441,7 +441,7 @@ fn rx_read_data_then_error() {
 
 // ---- lifecycle --------------------------------------------------------------------------------
 
-// @verif id=RX.life.a props=C02,C03,C04,C10 tier=quick
+// @verif id=RX.life.a props=C02,C03,C04 tier=quick
 // @functions UtpStreamReadHalf::drop, UserRx::remaining_rx_window, UserRx::is_reader_dropped
 // @bounds reader half dropped while the dispatcher is parked; any cached window
 // @asserts dispatcher woken; reader marked dropped; advertised window 0
@@ -457,7 +457,7 @@ fn rx_reader_drop_wakes_dispatcher() {
 }
 }
 
-// @verif id=RX.life.b props=C02,C03,C10 tier=quick
+// @verif id=RX.life.b props=C02,C03 tier=quick
 // @functions UserRx::mark_vsock_closed, UserRx::enqueue_error
 // @bounds blocked reader registered; enqueue_error then mark_vsock_closed (the order just_before_death uses), user queue holds one payload
 // @asserts the error is queued AFTER the data; the reader is woken; closing is idempotent
@@ -479,4 +479,9 @@ fn rx_death_path_wakes_reader() {
     std::mem::forget(urx);
     std::mem::forget(rh);
 }
+}
+
+/// Accessor for the tier-C harnesses.
+pub fn verif_rx_vsock_closed(urx: &UserRx) -> bool {
+    urx.shared.locked.lock().vsock_closed
 }
